@@ -9,7 +9,10 @@ REQ = ['Text.Import', 'BF.BruteForce', 'Spec.BFSpec', 'Corr.C07Corr']
 def gen(ctx, label, n):
     rng = ctx.rng(label)
     for k in range(n):
-        ast = instgen.gen_ast(rng, maxS=4, maxP=3, maxL=3)
+        if k % 4 == 3:
+            ast = instgen.gen_tradeoff(rng)      # size vs greediness / cost / generosity trade-offs
+        else:
+            ast = instgen.gen_ast(rng, maxS=4, maxP=3, maxL=3)
         yield dict(text=instgen.render(ast), na=ast['na'], twopl=rng.random() < 0.5, pc=rng.random() < 0.4, ast=ast)
     # shapes the accumulators' initial values must be neutral for
     for text, na in [('1 2\n1: 1 2\n1: 0: 1:\n2: 0: 1:\n', 2), ('3 1\n1: 1\n2: 1\n3: 1\n1: 0: 3:\n', 2),
